@@ -80,6 +80,10 @@ def _ev(t, env, cache):
             return math.hypot(a[0], a[1])
         if name == 'carg':
             return math.atan2(a[1], a[0])
+        if name == 'round':
+            if close(a[0] - math.floor(a[0]), 0.5) and (a[0] - math.floor(a[0])) != 0.5:
+                raise Ambiguous('round near tie')
+            return int(round(a[0]))
         if name == 'exp':
             return math.exp(a[0])
         if name == 'log10':
